@@ -55,8 +55,11 @@ func (s *state) sync(addrs stringset.Set) {
 		}
 	}
 
-	for addr := range s.healthy {
+	// Forget everything about hosts which left the list, healthy or not, so that
+	// a host which rejoins later is treated as new.
+	for addr := range s.all {
 		if !addrs.Has(addr) {
+			s.all.Remove(addr)
 			s.healthy.Remove(addr)
 			delete(s.trend, addr)
 		}
